@@ -75,7 +75,25 @@ func C14Configs(p *spec.Program) []spec.Config {
 	b.ImportPathOverrides["example.com/api"] = "example.com/moved"
 	b.ImportPathOverrides["types"] = "example.com/short/types"
 	b.ImportPathOverrides["example.com/x/wrappers"] = "example.com/y/wrappers"
-	return []spec.Config{a, b}
+	// schema_types entries that share a `type` with time_type / duration_type but bring constructors of
+	// their own, while time_type / duration_type have none (other time fields have no entry)
+	c := p.Config.Clone()
+	c.Sort = true
+	tc, dc := *spec.SimTimeType, *spec.SimDurationType
+	c.TimeType, c.DurationType = &tc, &dc
+	c.SchemaTypes = map[string]spec.SchemaType{}
+	for i, k := range []string{"Temporal.TimeV", "Temporal.TimeP", "Sink.Created", "Oneofs.ChT"} {
+		st := tc
+		st.TypeConstructor = []string{"UseSimTime()", "UseSimTimeNano()", "UseSimTimeSeconds()", "example.com/x/wrappers.UseTime()"}[i]
+		c.SchemaTypes[k] = st
+	}
+	for i, k := range []string{"Temporal.DurV", "Temporal.DurP", "Sink.Grace"} {
+		st := dc
+		st.TypeConstructor = []string{"UseSimDuration()", "UseSimDurationMillis()", "example.com/x/wrappers.UseDuration()"}[i]
+		c.SchemaTypes[k] = st
+	}
+	c.SchemaTypes["Scalars.FInt32"] = spec.SimInt32Override
+	return []spec.Config{a, b, c}
 }
 
 // C14ConfigsFor derives, for any program, two logical configurations with >= 2 entries in every map-
